@@ -51,6 +51,7 @@ func c16OwnedListings(c *Ctx) {
 				name     string
 				size     int64
 				uid, gid uint32
+				mode     os.FileMode
 			}
 			var wants []want
 			type src struct {
@@ -61,6 +62,10 @@ func c16OwnedListings(c *Ctx) {
 			for i := 0; i < size; i++ {
 				name := fmt.Sprintf("o%d", i)
 				os.WriteFile(filepath.Join(dir, name), make([]byte, 10+i), 0o640)
+				// some entries carry the special bits (set-group-id, set-user-id, sticky, all three): part of the attributes reported
+				if sp := []os.FileMode{0, os.ModeSetgid, os.ModeSetuid, os.ModeSticky | os.ModeSetgid, os.ModeSetuid | os.ModeSetgid | os.ModeSticky}[i%5]; sp != 0 {
+					os.Chmod(filepath.Join(dir, name), 0o750|sp)
+				}
 				host, err := os.Lstat(filepath.Join(dir, name))
 				if err != nil {
 					return
@@ -69,12 +74,12 @@ func c16OwnedListings(c *Ctx) {
 				if i%3 == 2 { // every third entry is a plain host entry: the owner the host reports
 					ents = append(ents, host)
 					u, g := c17HostOwner(host)
-					wants = append(wants, want{name, int64(10 + i), u, g})
+					wants = append(wants, want{name, int64(10 + i), u, g, host.Mode()})
 					srcs = append(srcs, src{false, u, g, 0, 0})
 					continue
 				}
 				ents = append(ents, c17Owned{host, uid, gid})
-				wants = append(wants, want{name, int64(10 + i), uid, gid})
+				wants = append(wants, want{name, int64(10 + i), uid, gid, host.Mode()})
 				hu, hg := c17HostOwner(host)
 				srcs = append(srcs, src{true, hu, hg, uid, gid})
 			}
@@ -99,6 +104,10 @@ func c16OwnedListings(c *Ctx) {
 				for i, fi := range got {
 					st, _ := fi.Sys().(*sftp.FileStat)
 					w := wants[i]
+					if st != nil && fi.Mode() != w.mode {
+						ok, why = false, fmt.Sprintf("entry %d (%s) listed with mode %v, the handler reported %v", i, fi.Name(), fi.Mode(), w.mode)
+						break
+					}
 					if st == nil || fi.Name() != w.name || fi.Size() != w.size || st.UID != w.uid || st.GID != w.gid {
 						var u, g uint32
 						if st != nil {
